@@ -7,6 +7,7 @@ CONSTANTS
   FreshL <- FreshC
   Tags <- TagsC
   MaxDepth = 12
+  Prefill = FALSE
   Record = TRUE
   PreFix = FALSE
   Repeats = FALSE
